@@ -219,3 +219,46 @@ Example isolation_needs_clear_errors :
   let '(_, q2) := on_event unit nat nat nat run y1 2 in
   r2 = (2, [1; 2]) /\ q2 = (2, [2]).
 Proof. split; reflexivity. Qed.
+
+(* ---- streams containing events whose execution aborts *)
+Section SubscribeAborts.
+  Variables (cache event tree err : Type).
+  (* data = None: a non-field exception left execute_fields after the listed
+     errors had been registered *)
+  Variable run : cache -> event -> cache * option tree * list err.
+  Variable c_fresh : cache.
+  Variable cache_inv : cache -> Prop.
+  Hypothesis run_keeps_inv : forall c e, cache_inv c -> cache_inv (fst (fst (run c e))).
+  Hypothesis run_cache_independent : forall c e, cache_inv c ->
+    snd (fst (run c e)) = snd (fst (run c_fresh e)) /\ snd (run c e) = snd (run c_fresh e).
+
+  Theorem isolation_with_aborts (s : sub_state cache event err) :
+    cache_inv (es_cache (ss_exec s)) ->
+    map (observe err) (snd (drain cache event (option tree) err run s)) =
+    map (fun e => observe err (spec_result cache event (option tree) err run c_fresh e)) (ss_source s) /\
+    forall k e d es,
+      nth_error (ss_source s) k = Some e ->
+      spec_result cache event (option tree) err run c_fresh e = (Some d, es) ->
+      nth_error (snd (drain cache event (option tree) err run s)) k = Some (Some d, es).
+  Proof.
+    intros Hinv.
+    pose proof (stream_spec cache event (option tree) err run c_fresh cache_inv
+                            run_keeps_inv run_cache_independent s Hinv) as Hs.
+    rewrite Hs. unfold spec_stream. split; [apply map_map|].
+    intros k e d es Hk He. rewrite (map_nth_error _ _ _ Hk), He. reflexivity.
+  Qed.
+End SubscribeAborts.
+
+(* clearing when the event STARTS is what makes this true: a variant that
+   clears in the completion callback leaks the errors an aborted event had
+   registered into the next result *)
+Example clear_at_end_leaks_after_abort :
+  let run (c : unit) (e : nat) := (c, (if e =? 1 then None else Some e), [e]) in
+  let completed (d : option nat) := match d with Some _ => true | None => false end in
+  let x0 := ExecState tt [] in
+  let '(x1, r1) := on_event_clear_at_end unit nat (option nat) nat run completed x0 1 in
+  let '(_, r2) := on_event_clear_at_end unit nat (option nat) nat run completed x1 2 in
+  let '(y1, q1) := on_event unit nat (option nat) nat run x0 1 in
+  let '(_, q2) := on_event unit nat (option nat) nat run y1 2 in
+  r1 = (None, [1]) /\ r2 = (Some 2, [1; 2]) /\ q1 = (None, [1]) /\ q2 = (Some 2, [2]).
+Proof. repeat split; reflexivity. Qed.
